@@ -37,7 +37,7 @@ for _i in range(256):
     _TBE.append(_c)
 
 _lib = None
-for _p in (os.path.join(os.environ.get("VERIF_BUILD", "/var/tmp/e2fs-verif-build"), "librefcrc.so"),):
+for _p in (os.path.join(os.path.dirname(os.path.abspath(__file__)), "librefcrc.so"),):
     if os.path.exists(_p):
         try:
             _lib = ctypes.CDLL(_p)
